@@ -49,6 +49,8 @@ def cases(tier, seed):
     for r in ratios:
         out.append({"cls": "ideal", "table": None, "p_f": r * 8000.0, "p_i": 8000.0, "sched": "scalar",
                     "tier": tier})
+        out.append({"cls": "ideal", "table": "T_ship_gas", "p_f": r * 8000.0, "p_i": 8000.0, "sched": "scalar",
+                    "tier": tier})  # a fluid attached to the ideal reservoir does not change its plateau
     synth = ["S_ideal", "S_zlin", "S_zdip", "S_zdip_desc"]
     shipped = ["T_ship_gas", "T_hay"] + (["T_lib"] if tier == "thorough" else [])
     for tab, r, sc, p_i in itertools.product(synth + shipped, ratios, ["scalar", "stepdown", "downup"], [8000.0, 6033.3]):
